@@ -271,10 +271,17 @@ def fixed_cases(g):
                 "dirs": dirs, "cwd": ["w"], "cwds": [], "entry": {"file": ["top.nml"], "style": "rel"}, "al": [], "shape": "chain"})
     out.append({"files": lib, "dirs": dirs, "cwd": ["w"], "cwds": [],
                 "entry": {"string": {"comps": own, "incs": [H("lib", "all.nml")]}, "base": [], "base_style": "abs"}, "al": [], "shape": "chain"})
-    for name in ("top.nml.h5", "top.h5"):
+    # one entry per HDF5 file form the loader accepts (.nml.h5, .h5, .hdf5); the included files above have the forms .nml and
+    # .xml, the next case adds an included .nml.h5; an .xml entry is case 11b
+    for name in ("top.nml.h5", "top.h5", "top.hdf5"):
         out.append({"files": [{"path": [name], "kind": "h5", "nets": [C("networks", "topnet", 0)],
                                "emb": {"comps": own, "incs": [H("lib", "all.nml")]}}] + lib,
                     "dirs": dirs, "cwd": ["w"], "cwds": [[]], "entry": {"file": [name], "style": "abs"}, "al": [], "shape": "chain"})
+    out.append({"files": [{"path": ["top.xml"], "kind": "xml", "comps": [C("cells", "own", 0)],
+                           "incs": [H("lib", "all.nml"), H("lib", "net.nml.h5")]},
+                          {"path": ["lib", "net.nml.h5"], "kind": "h5", "nets": [C("networks", "h5net", 0)],
+                           "emb": {"comps": [C("ion_channel", "k", 0)], "incs": [H("deep", "all2.xml")]}}] + lib,
+                "dirs": dirs, "cwd": ["w"], "cwds": [], "entry": {"file": ["top.xml"], "style": "abs"}, "al": [], "shape": "diamond"})
     for c in out:
         c["names"] = names_of(c)
         c["opts"] = [False, True]
@@ -545,7 +552,7 @@ def run(ck):
                  sample={"files": [[P(f["path"]), [P(h["segs"]) if h["abs"] else "/".join(h["segs"]) for h in
                                                    (f.get("incs") if f["kind"] == "xml" else (f.get("emb") or {}).get("incs") or [])]]
                                    for f in case["files"]], "cwd": P(cwd), "entry": case["entry"].get("file", "string"),
-                         "outcome": r["outcome"], "opened": r["loads"]} if ci in (1, 2, 3, 6, 12, 13) and cwd == case["cwd"] and not r["opt"] else None)
+                         "outcome": r["outcome"], "opened": r["loads"]} if ci in (1, 2, 3, 6, 14, 15) and cwd == case["cwd"] and not r["opt"] else None)
         for key, what, exp, obs in predicate(case, cwd, r, orc):
             ck.witness(key, what, input={"case": case, "cwd": cwd, "opt": r["opt"]}, expected=exp, observed=obs)
         if "file" in case["entry"] and case["entry"]["file"][-1].endswith((".h5", ".hdf5")):
